@@ -208,13 +208,7 @@ def one_run(scn, mutate):
         # marked two_phase - the run is split: the later arrivals are only queued after run() returned once
         sim, rec, evs, periods = S.build_sim(scn, on_call=on_call, on_return=on_return, peek=True)
         holder["evs"], holder["periods"] = evs, periods
-        later = []
-        split = scn.get("two_phase")
-        if split is not None:
-            keep = [(ts, e) for ts, e in sim.event_queue._queue if ts < split]
-            later = [e for ts, e in sim.event_queue._queue if ts >= split]
-            sim.event_queue._queue = []
-            sim.event_queue.add_events([e for _, e in keep])
+        later = rec.later
         try:
             sim.run()
             if later:
